@@ -98,3 +98,49 @@ package query
 //@   property C05
 //@   ensures [one-value-cell] len(result) == 1 && result[0] == val && fresh(result)
 //@   modifies nothing
+
+// MAX / MIN: NULL exactly when the bucket holds no value; otherwise one of the bucket's own (non-NULL) values
+//@ func Max
+//@   property C04
+//@   requires flags != nil
+//@   ensures [null-iff-the-bucket-holds-no-value] (result == value.null) == (nnCount(list, len(list)) == 0)
+//@   ensures [one-of-the-buckets-values] result != value.null ==> exists(k, 0, len(list), list[k] == result)
+//@   loop 1 invariant 0 <= $i && $i <= len(list)
+//@   loop 1 invariant (result@1 == value.null) == (nnCount(list, $i) == 0)
+//@   loop 1 invariant result@1 != value.null ==> exists(k, 0, $i, list[k] == result@1)
+//@   modifies *
+//@ func Min
+//@   property C04
+//@   requires flags != nil
+//@   ensures [null-iff-the-bucket-holds-no-value] (result == value.null) == (nnCount(list, len(list)) == 0)
+//@   ensures [one-of-the-buckets-values] result != value.null ==> exists(k, 0, len(list), list[k] == result)
+//@   loop 1 invariant 0 <= $i && $i <= len(list)
+//@   loop 1 invariant (result@1 == value.null) == (nnCount(list, $i) == 0)
+//@   loop 1 invariant result@1 != value.null ==> exists(k, 0, $i, list[k] == result@1)
+//@   modifies *
+
+// SUM / AVG / VAR / STDEV work on the numeric readings of the bucket's values: one number per value that reads as a number
+// (value.floatOk, the reading ToFloat is proved against), none for the others
+//@ spec func flCount(s []value.Primary, k int) int reads elems(s) fields(value.String) fields(value.Integer) fields(value.Float)
+//@ axiom fl_zero: forallv(s, []value.Primary, flCount(s, 0) == 0)
+//@ axiom fl_step: forallv(s, []value.Primary, forall(k, 0, MaxInt64, flCount(s, k + 1) == flCount(s, k) + ite(value.floatOk(s[k]), 1, 0)))
+//@ axiom fl_bounds: forallv(s, []value.Primary, forall(k, 0, MaxInt64, 0 <= flCount(s, k) && flCount(s, k) <= k))
+//@ func floatList
+//@   property C04
+//@   ensures [one-number-per-numeric-value] len(result) == flCount(list, len(list))
+//@   loop 1 invariant 0 <= $i && $i <= len(list) && len(values) == flCount(list, $i)
+//@   modifies *
+
+// ---------------------------------------------------------------------------------------------
+// C03: the row of a join is the left row's cells followed by the right row's cells (the variant without a record pool;
+// callers keep verifying against the body)
+//@ func (Record).Merge
+//@   property C03
+//@   inline
+//@   requires pool == nil && len(r) + len(r2) <= MaxInt64
+//@   ensures [left-cells-then-right-cells] len(result) == len(r) + len(r2) && fresh(result) && forall(c, 0, len(r), result[c] == r[c]) && forall(c, 0, len(r2), result[len(r) + c] == r2[c])
+//@   loop 1 invariant 0 <= $i && $i <= len(r) && len(record) == len(r) + len(r2) && fresh(record) && leftLen == len(r) && forall(c, 0, $i, record[c] == r[c])
+//@   loop 1 modifies record[*]
+//@   loop 2 invariant 0 <= $i && $i <= len(r2) && len(record) == len(r) + len(r2) && fresh(record) && leftLen == len(r) && forall(c, 0, len(r), record[c] == r[c]) && forall(c, 0, $i, record[len(r) + c] == r2[c])
+//@   loop 2 modifies record[*]
+//@   modifies nothing
